@@ -716,8 +716,9 @@ def mutate(units, cfg, rng, major, level):
         if (newv >= 3) == (major >= 3) or not any(x.tag in (1, 2) for x in us):
             us = [cfg.header(newv, x.f[3], 0) if x.tag == 0 else x for x in us]
         else:
-            j = rng.choice([m for m, x in enumerate(us) if x.tag == 0])
-            if j > 0 or not any(x.tag in (1, 2) for x in us[1:]):
+            hs = [m for m, x in enumerate(us) if x.tag == 0]
+            j = rng.choice(hs) if hs else None
+            if j is not None and (j > 0 or not any(x.tag in (1, 2) for x in us[1:])):
                 us[j] = cfg.header(newv, us[j].f[3], 0)
     elif k == "hdr-level":
         hs = [m for m, x in enumerate(us) if x.tag == 0]
@@ -1019,7 +1020,7 @@ def run(ctx):
     # ---- (a) exhaustive orderings ---------------------------------------------------------------
     full = "HhPFDpaE"
     plan = ctx.pick(
-        [("hq-frames-frag1-2x2", 5, 0, full), ("hq-frames-pic-2x1", 4, 1, full), ("ld-fields-frag4-2x2", 4, 0, full),
+        [("hq-frames-frag1-2x2", 5, 0, "HhPFDpE"), ("hq-frames-pic-2x1", 4, 1, full), ("ld-fields-frag4-2x2", 4, 0, full),
          ("ld-frames-pic-2x1", 4, 64, full), ("hq-fields-pic-1x1", 4, 66, full), ("hq-fields-frag2-3x2", 4, 3, full)],
         [("hq-frames-frag1-2x2", 6, 0, full), ("hq-frames-pic-2x1", 6, 1, full), ("ld-fields-frag4-2x2", 6, 0, full),
          ("ld-frames-pic-2x1", 6, 64, full), ("hq-fields-pic-1x1", 6, 66, full), ("hq-fields-frag2-3x2", 6, 3, full),
@@ -1033,7 +1034,7 @@ def run(ctx):
                       bucket="orderings-len%d" % len(word))
     ctx.exhaustive = True
     # ---- (b) mutated conformant streams ------------------------------------------------------------
-    n_random = ctx.pick(2000, 40000)
+    n_random = ctx.pick(1600, 40000)
     maxlen = ctx.pick(10, 12)
     tries = 0
     made = 0
